@@ -453,6 +453,7 @@ func scenarioPortfolio(password bool) [][]string {
 			{respCmd("auth", "x"), respCmd("STRLEN", "k")},
 			{respCmd("AUTH"), respCmd("HLEN", "k")},
 			{respCmd("AUTHX", "x"), respCmd("SUBSTR", "k", "0", "1")},
+			{respCmd("AUTH", "s3cret"), respCmd("SELECT", "3"), respCmd("GET", "a"), respCmd("AUTH", "wrong"), respCmd("GET", "b"), respCmd("SET", "c", "d")},
 		}
 	}
 	return [][]string{
